@@ -379,7 +379,11 @@ func (g *vcgen) instr(ins ssa.Instruction) {
 	case *ssa.Slice:
 		g.sliceOp(x)
 	case *ssa.MakeChan:
-		g.setVal(x, g.newRef())
+		r := g.newRef()
+		g.setVal(x, r)
+		// the capacity the channel was made with: ghost map chancap (contracts: gm(chancap, ch))
+		g.stateVar("G.m.chancap", "(Array Int Int)")
+		g.set("G.m.chancap", fmt.Sprintf("(store %s %s %s)", g.get(g.st, "G.m.chancap"), r, g.val(x.Size)))
 	case *ssa.MakeClosure:
 		r := g.newRef()
 		g.setVal(x, r)
